@@ -624,6 +624,18 @@ fn render(body: &[Node], atoms: &[Atom], ret: Option<&'static str>) -> String
 	let mut s = String::from(
 		"const K: i32 = 44;\n\nfn sink(x: i32)\n{\n\tprint!(x, \"\\n\");\n}\n\n",
 	);
+	let at = |k: usize| atom_text(&atoms[k]);
+	let mut body_text = String::new();
+	treegen::print_seq(body, 1, &at, &mut body_text);
+	// Neighbouring declarations that use the same names must not matter:
+	// parameters of function heads and the variables and parameters of other
+	// functions are not in scope here. One of three surroundings per body.
+	match crate::choices::fnv(&body_text) % 3
+	{
+		1 => s.push_str("fn head_one(v: i32, w: i32) -> i32;\n\nfn head_two(z: i32, u: i32, p: i32);\n\n"),
+		2 => s.push_str("fn other(u: i32, z: i32) -> i32\n{\n\tvar v: i32 = u;\n\tvar w: i32 = z;\n\treturn: v + w\n}\n\n"),
+		_ => (),
+	}
 	if ret.is_some()
 	{
 		s.push_str("fn f(p: i32) -> i32\n{\n");
@@ -632,8 +644,7 @@ fn render(body: &[Node], atoms: &[Atom], ret: Option<&'static str>) -> String
 	{
 		s.push_str("fn f(p: i32)\n{\n");
 	}
-	let at = |k: usize| atom_text(&atoms[k]);
-	treegen::print_seq(body, 1, &at, &mut s);
+	s.push_str(&body_text);
 	if let Some(r) = ret
 	{
 		s.push_str(&format!("\treturn: {}\n", r));
@@ -928,6 +939,31 @@ fn repair_labels(seq: &mut Vec<Node>, atoms: &[Atom], outer: &[&'static str], ta
 			}
 		}
 	}
+}
+
+/// the source of one random body (also compiled to IR by C02)
+pub fn random_source(c: &mut Choices) -> String
+{
+	let atoms = atoms_large();
+	let g = Grammar {
+		atoms: atoms.len(),
+		naked_branches: false,
+	};
+	let mut budget = 30;
+	let ret = match c.draw(4)
+	{
+		0 => None,
+		1 => Some("v"),
+		2 => Some("p"),
+		_ => Some("w"),
+	};
+	let mut body = treegen::random_seq(c, g, &mut budget, 4, 10);
+	if c.chance(3, 4)
+	{
+		let tail: Vec<&'static str> = if ret.is_some() { vec!["return"] } else { vec![] };
+		repair_labels(&mut body, &atoms, &[], &tail);
+	}
+	render(&body, &atoms, ret)
 }
 
 struct RandomBodies;
